@@ -170,7 +170,8 @@ def obligations(tier):
     obs = []
     for mod in SOURCES:
         m = importlib.import_module(f"vt.props.{mod}")
-        src = [ob for ob in m.obligations(tier) if type(ob) is GOb and ob.raises is None and ob.post is not None]
+        src = [ob for ob in m.obligations(tier) if type(ob) is GOb and ob.raises is None and ob.post is not None
+               and not (tier != "quick" and ("CP_PLSR.transform" in ob.function or (ob.instance.get("order", 0) >= 4 and ":non_negative" in ob.function)))]
         for ob in _select(mod, src, tier):
             obs.append(wrap(ob, True))
             if tier != "quick":
